@@ -1,7 +1,7 @@
 """C05 — the result depends only on year, forms and input values (premises)."""
 from ..core import get_core
 from .. import corerules as R
-from ..linerules import l1_access, l2_effects, l2b_shared_iterators
+from ..linerules import l1_access, l2_effects, l2b_shared_iterators, l2c_generators_consumed_once
 from ..lines import get_analysis
 
 
@@ -19,6 +19,7 @@ def check(tree, rep, tier='quick', seed=0):
     l1_access(tree, rep)
     l2_effects(tree, rep)
     l2b_shared_iterators(tree, rep)
+    l2c_generators_consumed_once(tree, rep)
     R.k6_single_value_writer(core, rep)
     R.k12_schedule_once(core, rep)
     R.k13_add_form(core, rep)            # what a form load registers does not depend on how the form was first reached
